@@ -551,6 +551,12 @@ func (e *Env) evalCall(x ECall) TV {
 		v := e.eval(x.Args[0])
 		s := e.asSet(v)
 		return TV{s, setOf(s.Elem)}
+	case "vals":
+		v := e.eval(x.Args[0])
+		if v.T.K != KMap || !v.T.Elem.single() {
+			efail("vals of %s", v.T)
+		}
+		return TV{Select(vc.mapComp(e.heap, v.T, "mapval"), e.asInt(v)), seqOf(*v.T.Elem)}
 	case "set":
 		v := e.eval(x.Args[0])
 		s := e.asSet(v)
